@@ -6,6 +6,8 @@ package varmq
 // critical section, without a scheduling point in between, so they are atomic with it.
 
 import (
+	"strconv"
+
 	"github.com/goptics/varmq/internal/queues"
 	"github.com/goptics/varmq/internal/vt"
 )
@@ -15,7 +17,19 @@ type innerQ interface {
 	PurgeValues() []any
 }
 
-type recQ struct{ in innerQ }
+type recQ struct {
+	in innerQ
+	id string
+}
+
+var recQSeq int
+
+func nextQID(inner any) string {
+	recQSeq++
+	id := strconv.Itoa(recQSeq)
+	vt.Mark("q:new", inner, id)
+	return id
+}
 
 func b01(b bool) string {
 	if b {
@@ -24,26 +38,31 @@ func b01(b bool) string {
 	return "0"
 }
 
-func (q recQ) Len() int      { return q.in.Len() }
+func (q recQ) Len() int {
+	n := q.in.Len()
+	vt.Mark("q:len", nil, q.id+" "+strconv.Itoa(n))
+	return n
+}
 func (q recQ) Values() []any { return q.in.Values() }
 func (q recQ) Purge()        { q.in.Purge() }
 func (q recQ) Close() error  { return q.in.Close() }
 func (q recQ) Enqueue(item any) bool {
 	ok := q.in.Enqueue(item)
-	vt.Mark("q:enq", item, b01(ok))
+	vt.Mark("q:enq", item, b01(ok)+" "+q.id)
 	return ok
 }
 func (q recQ) Dequeue() (any, bool) {
 	v, ok := q.in.Dequeue()
 	if ok {
-		vt.Mark("q:deq", v, "")
+		vt.Mark("q:deq", v, q.id)
 	}
 	return v, ok
 }
 func (q recQ) PurgeValues() []any {
 	vs := q.in.PurgeValues()
+	vt.Mark("q:purge", nil, q.id+" "+strconv.Itoa(len(vs)))
 	for _, v := range vs {
-		vt.Mark("q:purged", v, "")
+		vt.Mark("q:purged", v, q.id)
 	}
 	return vs
 }
@@ -53,31 +72,45 @@ type innerPQ interface {
 	PurgeValues() []any
 }
 
-type recPQ struct{ in innerPQ }
+type recPQ struct {
+	in innerPQ
+	id string
+}
 
-func (q recPQ) Len() int      { return q.in.Len() }
+func (q recPQ) Len() int {
+	n := q.in.Len()
+	vt.Mark("q:len", nil, q.id+" "+strconv.Itoa(n))
+	return n
+}
 func (q recPQ) Values() []any { return q.in.Values() }
 func (q recPQ) Purge()        { q.in.Purge() }
 func (q recPQ) Close() error  { return q.in.Close() }
 func (q recPQ) Enqueue(item any, prio int) bool {
 	ok := q.in.Enqueue(item, prio)
-	vt.Mark("q:enq", item, b01(ok))
+	vt.Mark("q:enq", item, b01(ok)+" "+q.id)
 	return ok
 }
 func (q recPQ) Dequeue() (any, bool) {
 	v, ok := q.in.Dequeue()
 	if ok {
-		vt.Mark("q:deq", v, "")
+		vt.Mark("q:deq", v, q.id)
 	}
 	return v, ok
 }
 func (q recPQ) PurgeValues() []any {
 	vs := q.in.PurgeValues()
+	vt.Mark("q:purge", nil, q.id+" "+strconv.Itoa(len(vs)))
 	for _, v := range vs {
-		vt.Mark("q:purged", v, "")
+		vt.Mark("q:purged", v, q.id)
 	}
 	return vs
 }
 
-func newRecQ[J any]() recQ   { return recQ{queues.NewQueue[J]()} }
-func newRecPQ[J any]() recPQ { return recPQ{queues.NewPriorityQueue[J]()} }
+func newRecQ[J any]() recQ {
+	in := queues.NewQueue[J]()
+	return recQ{in, nextQID(in)}
+}
+func newRecPQ[J any]() recPQ {
+	in := queues.NewPriorityQueue[J]()
+	return recPQ{in, nextQID(in)}
+}
